@@ -1,3 +1,66 @@
-import Gsu.Model.Btree
+/-
+C10 — Stored btrees behave as ordered maps.
+
+"For any sequence of batched inserts, updates and deletes applied to a stored index tree, and for
+any bulk-built tree, looking up a key returns exactly its current offset (or nothing), iteration
+yields exactly the current keys in order, range fraction estimates are between 0 and 1, and every
+tree node respects the ordering and size invariants."
+
+LEVEL: specification side only (partial). The Lean model (`Gsu/Model/Btree.lean`, executed by
+`drv_c10`) is the CONTENT of a tree — the strictly sorted list of (key, offset) that iteration
+yields — with the map-level effect of `MergeAndSave` (`state.modify`: insert asserts absent,
+update/delete assert present) and the greedy bottom-up chunking of the bulk `Builder`.
+The theorems say this content behaves as an ordered map under batches and that bulk build keeps
+the input sequence. NOT modelled, hence not proved (tied to the code only by the correspondence
+run and the direct oracles Lookup / iteration both ways / Check() / RangeFrac ∈ [0,1]):
+  * FULL `tree_inv` preserved by `mergeBatch` with node split at `splitCount`/`maxNodeSize` and
+    empty-node removal, separators bounding children, `lookup` by descent = `toMap` lookup;
+  * `leaf_codec_roundtrip` (prefix compressed leaf layout);
+  * `rangeFrac_bounds` (no model of `rangeFrac`; the direct oracle checks 0 ≤ f ≤ 1 and found a
+    violation on the unchanged code, see findings/C10.md).
+-/
+import Gsu.Proofs.Btree
+import Gsu.Gen.Btree
 namespace Gsu.Props.C10
+open Gsu.Btree
+
+/-- tree_sem (map level, partial): an accepted batch turns a sorted content into a sorted content
+whose lookups are those of the abstract map after applying the entries in order
+(`add`/`upd` bind the key, `del` unbinds it). Iteration = the content list, so "iteration yields
+exactly the current keys in order" is `Sorted m'` plus these lookups. -/
+theorem tree_sem_partial (m m' : List KV) (b : List (Key × Op × Nat)) (hs : Sorted m)
+    (h : applyBatch m b = some m') :
+    Sorted m' ∧ ∀ x, lookup m' x = specBatch (lookup m) b x :=
+  applyBatch_spec hs h
+
+/-- a batch entry is accepted exactly when the Go assert holds: insert of an absent key,
+update/delete of a present key (otherwise `MergeAndSave` panics: `!assert` in the driver) -/
+theorem batch_entry_accepted_iff (m : List KV) (k : Key) (op : Op) (o : Nat) (hs : Sorted m) :
+    (applyOne m k op o).isSome ↔
+      (match op with | .add => lookup m k = none | _ => (lookup m k).isSome) :=
+  applyOne_defined hs
+
+/-- bulk build (partial: count limit only, no byte-size limit, no separators): the in-order
+content of the tree built bottom-up from greedy chunks is the input sequence, for every node
+capacity `n` (`splitCount`) -/
+theorem bulk_build_content_partial (n : Nat) (l : List KV) : (build n l).toList = l :=
+  build_toList n l
+
+-- non-vacuity
+example : Sorted [([1], 5), ([1, 0], 6), ([2], 7)] := by unfold Sorted; decide
+example : applyBatch [([1], 5), ([2], 7)] [([1], .upd, 9), ([1, 0], .add, 6), ([2], .del, 7)]
+    = some [([1], 9), ([1, 0], 6)] := by decide
+example : applyBatch [([1], 5)] [([1], .add, 6)] = none := by decide
+example : (build 2 [([1], 1), ([2], 2), ([3], 3), ([4], 4), ([5], 5)]).toList.length = 5 := by decide
+
+/-- (G) the flag bits the model decodes batch entries with and the size constants are those of
+the Go source today (`splitCount` default, `maxNodeSize`, `maxLevels`, `smallRoot`) -/
+theorem gen_constants :
+    Gsu.Gen.Btree.cUpdate = updBit ∧ Gsu.Gen.Btree.cDelete = delBit ∧ Gsu.Gen.Btree.cInsert = 0 ∧
+    Gsu.Gen.Btree.cMask = mask ∧ Gsu.Gen.Btree.splitCount = 100 ∧
+    Gsu.Gen.Btree.maxNodeSize = 8192 ∧ Gsu.Gen.Btree.maxLevels = 8 ∧ Gsu.Gen.Btree.smallRoot = 8 ∧
+    -- a full tree of `treeHeight` levels above the leaves cannot exceed the iterator's stack
+    Gsu.Gen.Btree.treeHeight < Gsu.Gen.Btree.maxLevels := by
+  refine ⟨by decide, by decide, rfl, by decide, rfl, rfl, rfl, rfl, by decide⟩
+
 end Gsu.Props.C10
